@@ -178,7 +178,8 @@ impl<'a> Sess<'a> {
             }
         }
         self.drain_pubs(from);
-        let same_url = (0..msgs.len()).any(|i| (0..i).any(|j| msgs[i].url == msgs[j].url || msgs[i].kind == "config" || msgs[j].kind == "config"));
+        let same_url = (0..msgs.len()).any(|i| (0..i).any(|j| msgs[i].url == msgs[j].url || ["config", "adduser"].contains(&msgs[i].kind.as_str()) || ["config", "adduser"].contains(&msgs[j].kind.as_str())));
+        // (a configuration change and an addition to the user dictionary re-process every open document)
         self.evs.push(json!({"ev": "Quiescent", "overlap": same_url && msgs.len() > 1}));
     }
 }
